@@ -644,13 +644,14 @@ def witness_rules(w):
     """set of finding ids that together explain the witness, or None if some part is unexplained"""
     sc = w['scenario']
     c = w.get('check')
-    if c == 'p_run_ends_nominal' and w.get('analysis') == 'mc':
-        return {'mc-no-final-reset'}
     if c in ('p_run_ends_nominal', 'p_reset_restores'):
         rules = set()
         for e in w.get('diff') or [[None, None]]:
             r = entry_rule(sc, e) if e[0] is not None else None
             if r is None:
+                # MonteCarlo.run without final reset leaves every perturbed / compensated coordinate displaced
+                if c == 'p_run_ends_nominal' and w.get('analysis') == 'mc':
+                    return {'mc-no-final-reset'}
                 return None
             rules.add(r)
         return rules
